@@ -44,15 +44,29 @@ func c15Measure(fn func() error) (alloc uint64, panicked string, dur time.Durati
 	var a, b runtime.MemStats
 	runtime.ReadMemStats(&a)
 	t0 := time.Now()
-	func() {
+	type outcome struct {
+		pan string
+		err error
+	}
+	done := make(chan outcome, 1)
+	go func() {
+		var o outcome
 		defer func() {
 			if r := recover(); r != nil {
-				panicked = fmt.Sprint(r)
+				o.pan = fmt.Sprint(r)
 			}
+			done <- o
 		}()
-		err = fn()
+		o.err = fn()
 	}()
-	dur = time.Since(t0)
+	select {
+	case o := <-done:
+		panicked, err = o.pan, o.err
+		dur = time.Since(t0)
+	case <-time.After(6 * time.Second):
+		// it does not return on input that has ended (the goroutine is left behind); reported as "slow"
+		dur = time.Since(t0)
+	}
 	runtime.ReadMemStats(&b)
 	return b.TotalAlloc - a.TotalAlloc, panicked, dur, err
 }
@@ -143,6 +157,39 @@ func TestVerifC15Decoders(t *testing.T) {
 			judge(t, 2, append(append([]byte("SBM1"), be32b(claimed)...), body...), fmt.Sprintf("legacy manifest header announcing %d bytes, %d delivered", claimed, delivered))
 			ri := append([]byte{controlTypeFileResumeInfo, 0, 0}, be64b(7)...)
 			ri = append(append(ri, be32b(3)...), be32b(claimed)...)
+			judge(t, 0, append(ri, body...), fmt.Sprintf("FileResumeInfo announcing a bitmap of %d bytes, %d delivered", claimed, delivered))
+		}
+	}
+	// FileResumeInfo whose two peer-supplied counts agree with each other (bitmap length =
+	// ceil(chunks/8)) and are absurd; their agreement proves nothing about what will arrive
+	for _, claimed := range []uint32{1 << 28, 1 << 26, 1<<29 - 1} {
+		total := uint64(claimed) * 8
+		if total > 0xffffffff {
+			total = 0xffffffff
+		}
+		if (total+7)/8 != uint64(claimed) {
+			continue
+		}
+		for _, delivered := range []int{0, 5, 65536, 200000} {
+			body := verifkit.Content(uint64(claimed)+uint64(delivered), delivered)
+			ri := append([]byte{controlTypeFileResumeInfo, 0, 0}, be64b(7)...)
+			ri = append(append(ri, be32b(uint32(total))...), be32b(claimed)...)
+			judge(t, 0, append(ri, body...), fmt.Sprintf("FileResumeInfo announcing %d chunks and a matching bitmap of %d bytes, %d delivered", total, claimed, delivered))
+		}
+	}
+	// announced lengths that are whole multiples of the readers' 64 KiB step, with all but the
+	// last step (or everything) delivered before the input ends
+	for _, claimed := range []uint32{65536, 131072, 196608, 1 << 20} {
+		for _, missing := range []int{65536, 65535, 1, 0} {
+			delivered := int(claimed) - missing
+			if delivered < 0 {
+				continue
+			}
+			body := verifkit.Content(uint64(claimed)+uint64(delivered), delivered)
+			judge(t, 1, append(append([]byte("SBC1"), be32b(claimed)...), body...), fmt.Sprintf("control header announcing %d bytes of manifest, %d delivered", claimed, delivered))
+			judge(t, 2, append(append([]byte("SBM1"), be32b(claimed)...), body...), fmt.Sprintf("legacy manifest header announcing %d bytes, %d delivered", claimed, delivered))
+			ri := append([]byte{controlTypeFileResumeInfo, 0, 0}, be64b(7)...)
+			ri = append(append(ri, be32b(claimed*8)...), be32b(claimed)...)
 			judge(t, 0, append(ri, body...), fmt.Sprintf("FileResumeInfo announcing a bitmap of %d bytes, %d delivered", claimed, delivered))
 		}
 	}
